@@ -396,6 +396,9 @@ pub enum FaultSite {
     Clone,
     /// the k-th invocation of a for_each / fold closure panics
     Closure,
+    /// the k-th destructor call of an element that runs inside an operation of a thread panics (never while
+    /// that thread is already unwinding)
+    Drop,
 }
 
 #[derive(Clone, Copy, Debug, PartialEq, Eq, Hash)]
@@ -544,6 +547,7 @@ impl Case {
                 FaultSite::ProbeNext => "ProbeNext",
                 FaultSite::Clone => "Clone",
                 FaultSite::Closure => "Closure",
+                FaultSite::Drop => "Drop",
             };
             m.insert("fault".into(), json!(format!("{}({})", s, f.k)));
         }
@@ -626,6 +630,7 @@ impl Case {
                     "ProbeNext" => FaultSite::ProbeNext,
                     "Clone" => FaultSite::Clone,
                     "Closure" => FaultSite::Closure,
+                    "Drop" => FaultSite::Drop,
                     _ => return Err("bad fault site".into()),
                 };
                 Some(Fault { site, k })
